@@ -102,8 +102,22 @@ def generate(seed, tier, index):
             scripts.append(C.make_script_entry(rh.sub("pre", j, "s"), rh.sub("pre", j, "u"), rh.sub("pre", j, "k"),
                                                rh.choice([k2, kind]), None, {"steps": (2, 15), "p_seed": 1.0}, rich=False, spec=sib))
             continue
-        scripts.append(C.make_script_entry(rh.sub("pre", j, "s"), rh.sub("pre", j, "u"), rh.sub("pre", j, "k"), k2,
-                                           PRE_P, {"steps": (2, 15), "p_seed": 1.0}, rich=rh.chance(0.3)))
+        same_us = main["phys"]["us"]["quantity"] != "molecule" and rh.chance(0.4)
+        if same_us:
+            k2 = rh.choice(["tauleap", "gillespie"])
+        pre_e = C.make_script_entry(rh.sub("pre", j, "s"), rh.sub("pre", j, "u"), rh.sub("pre", j, "k"), k2,
+                                    PRE_P, {"steps": (2, 15), "p_seed": 1.0}, rich=rh.chance(0.3))
+        if same_us and pre_e["phys"]["sp"]["isp"] != "none":
+            # an earlier script of the same caller, written in the same units system as S - the caller holds ONE UnitsSystem
+            # object for both - and run on a molecule-counting engine (which works in molecules internally)
+            from .. import gen
+            us_m = dict(main["phys"]["us"])
+            if gen.boundary_numbers_ok(pre_e["phys"]["spec"], gen.engine_units(us_m, k2)):
+                pre_e["script"] = gen.render_script(rh.sub("pre", j, "us"), pre_e["phys"]["sp"], us_m, rich=False)
+                pre_e["phys"]["us"] = us_m
+                pre_e["phys"]["eu"] = gen.engine_units(us_m, k2)
+                pre_e["shares_units_object_with_main"] = True
+        scripts.append(pre_e)
     # the Euler engine must not depend on the seed: a twin of S with another seed
     twin = None
     # (only when the initial-state processing is deterministic: "Poisson"/"redist" are seeded draws by definition)
